@@ -18,6 +18,8 @@ Definition model (c : case) : list Z :=
   | 6%N => [b2z (eq_From_Equal (fun p q => Z.eqb p (q + code c)) x y)]
   | 7%N => [ord_From_Compare (fun p q => ord_ord_Compare Z.ltb p (q + code c)) x y]
   | 8%N => [semigroup_From_Combine (bop (code c)) x y]
+  | 11%N => [b2z (eq_ContraMap_Equal (proj (code c)) (eq_From_Equal (fun p q => Z.eqb p (q + code c))) x y)]
+  | 12%N => [ord_ContraMap_Compare (proj (code c)) (ord_From_Compare (fun p q => ord_ord_Compare Z.ltb p (q + code c))) x y]
   | 9%N => let m := monoid_From (e c) (semigroup_From_Combine (bop (code c))) in
            [monoid_monoid_Empty (snd m); fst m x y; fst m y x]
   | _ => let m := monoid_FromOp (e c) (bop (code c)) in
